@@ -50,7 +50,10 @@
 //!   ECDSA_SIG_new            r = s = 0 (two owned BIGNUMs); NULL on allocation failure.
 //!   ECDSA_SIG_set0(sig,r,s)  0 if r or s is NULL (nothing changes); else frees the old r, s and TAKES OWNERSHIP of the new.
 //!   ECDSA_SIG_get0           borrowed pointers to r and s.
-//!   ECDSA_SIG_from_bytes     strict DER parser (SEQUENCE of two minimal non-negative INTEGERs, nothing trailing); NULL otherwise.
+//!   ECDSA_SIG_from_bytes     strict parser (SEQUENCE of two minimal non-negative INTEGERs, nothing trailing); NULL otherwise.
+//!                            NOTE on the byte layout: the framing and the LENGTH are those of DER, the content bytes of the two
+//!                            INTEGERs are stored least-significant first (see "DER-shaped signature bytes" below) — the
+//!                            repository treats these bytes as opaque.
 //!   ECDSA_SIG_to_bytes       DER into a fresh OPENSSL_malloc buffer (*out_bytes, *out_len), 1; 0 on allocation failure.
 //!   ECDSA_verify             0 unless `sig` is strict DER, 0 < r, s < n, the key has a public key and the ideal-signature
 //!                            relation conv::ecdsa_verify holds. With the point at infinity as public key the real equation
@@ -60,7 +63,8 @@
 //!   ECDH_compute_key(out, outlen, pub, priv, kdf = None)   -1 if priv has no private key or pub is infinity
 //!                            (`EC_KEY_check_fips` on the peer key); else writes min(48, outlen) bytes of conv::ecdh and
 //!                            returns that count.
-//! OPENSSL_free (mem.c): frees a buffer returned by ECDSA_SIG_to_bytes (size kept in a prefix, like OPENSSL_malloc).
+//! OPENSSL_free (mem.c): frees a buffer returned by ECDSA_SIG_to_bytes (header prefix like OPENSSL_malloc; fixed 104-byte capacity,
+//!                            see ossl_malloc).
 #![allow(non_camel_case_types, non_snake_case, non_upper_case_globals, clippy::missing_safety_doc, static_mut_refs)]
 
 pub mod conv;
@@ -73,6 +77,7 @@ pub const BN_CAP: usize = 66;
 pub const DER_CAP: usize = 104;
 
 #[repr(C)]
+#[derive(Clone, Copy)]
 pub struct bignum_st {
     len: usize,         // minimal length of the magnitude
     mag: [u8; BN_CAP],  // right-aligned big-endian magnitude, zero-filled on the left
@@ -89,6 +94,7 @@ pub struct ec_group_st {
 }
 pub type EC_GROUP = ec_group_st;
 #[repr(C)]
+#[derive(Clone, Copy)]
 pub struct ec_point_st {
     inf: bool,
     enc: [u8; 49],
@@ -119,16 +125,58 @@ pub enum point_conversion_form_t {
 // ------------------------------------------------------------------------------------------------ ghost state
 pub mod model {
     use super::*;
-    pub(crate) static mut LIVE: isize = 0;
-    pub(crate) static mut ALLOC_MAY_FAIL: bool = false;
+    // KANI 0.68 PITFALL (found the hard way): a `static mut` whose initialiser has the same bytes as some constant of the program
+    // (e.g. `false` and the constant `Ok(())` of a `Result<(), ZST>`, both the single byte 00) can be chosen by Kani's codegen as
+    // the backing memory of that constant — writing the static then silently changes the constant (observed: after
+    // `SCALARS_PROMISED = true`, `Ok(())` in models/aws-lc-rs read back as `Err`). Every mutable static of this model therefore
+    // starts from a distinctive 8-byte magic value that no constant of the program has.
+    const LIVE_BASE: isize = 0x5eed_11fe_c0de_0000;
+    const FLAG_OFF: u64 = 0xa110_cf1a_9000_0000;
+    pub(crate) static mut LIVE: isize = LIVE_BASE;
+    pub(crate) static mut ALLOC_MAY_FAIL: u64 = FLAG_OFF + 0x10;
+    pub(crate) static mut SCALARS_PROMISED: u64 = FLAG_OFF + 0x20;
+    pub(crate) static mut POINTS_PROMISED: u64 = FLAG_OFF + 0x30;
+    fn flag(v: u64) -> bool {
+        v & 1 == 1
+    }
+    fn set(v: &mut u64, b: bool) {
+        *v = (*v & !1) | b as u64;
+    }
+    pub(crate) fn scalars_promised() -> bool {
+        unsafe { flag(SCALARS_PROMISED) }
+    }
+    pub(crate) fn points_promised() -> bool {
+        unsafe { flag(POINTS_PROMISED) }
+    }
 
     /// Number of live aws-lc objects (BIGNUM, EC_POINT, EC_KEY, ECDSA_SIG, OPENSSL buffers) allocated through the model.
     pub fn live() -> isize {
-        unsafe { LIVE }
+        unsafe { LIVE - LIVE_BASE }
     }
+    /// Harness promise: every scalar that reaches EC_KEY_set_private_key is in 1..n-1 (the harness assumed it for the bytes it
+    /// decodes / draws). EC_KEY_set_private_key then ASSUMES the range instead of branching on it, so that a key built through the
+    /// repository's fallible constructor is a concretely-Ok value with a concrete pointer (README rule 3: no symbolic Ok/Err merge in
+    /// front of the code under test). Harnesses that decide which scalars are accepted (`*_codec_*`, `*_random_h`,
+    /// `seal_out_of_range_draw_h`) do not give the promise.
+    pub fn promise_scalars_in_range(b: bool) {
+        unsafe { set(&mut SCALARS_PROMISED, b) }
+    }
+    /// Harness promise: every 49-byte string that reaches EC_POINT_oct2point is the compressed encoding of a point on the curve
+    /// (an honestly generated public key). EC_POINT_oct2point then ASSUMES tag and validity instead of branching on them (same
+    /// purpose as `promise_scalars_in_range`). Not given by the harnesses that decide which encodings are accepted or that tamper
+    /// with key bytes.
+    pub fn promise_points_valid(b: bool) {
+        unsafe { set(&mut POINTS_PROMISED, b) }
+    }
+    #[cfg(kani)]
+    pub(crate) fn assume(c: bool) {
+        kani::assume(c)
+    }
+    #[cfg(not(kani))]
+    pub(crate) fn assume(_c: bool) {}
     /// Harness switch: may allocations fail (nondeterministically, independently at every allocation)?
     pub fn alloc_may_fail(b: bool) {
-        unsafe { ALLOC_MAY_FAIL = b }
+        unsafe { set(&mut ALLOC_MAY_FAIL, b) }
     }
     #[cfg(kani)]
     pub(crate) fn nondet_bool() -> bool {
@@ -147,7 +195,7 @@ pub mod model {
         panic!("aws-lc-sys model: no native implementation")
     }
     pub(crate) fn alloc_fails() -> bool {
-        unsafe { ALLOC_MAY_FAIL && nondet_bool() }
+        unsafe { flag(ALLOC_MAY_FAIL) && nondet_bool() }
     }
 
     /// Ghost view of a BIGNUM: (minimal length, value left-padded to 48 bytes if it fits).
@@ -155,8 +203,9 @@ pub mod model {
         (*bn).len
     }
     pub unsafe fn bn_pad48(bn: *const BIGNUM) -> [u8; 48] {
-        assert!((*bn).len <= 48, "[model] capacity: bn_pad48 of a value longer than 48 bytes");
-        low48(&*bn)
+        let b = *bn;
+        assert!(b.len <= 48, "[model] capacity: bn_pad48 of a value longer than 48 bytes");
+        low48(&b)
     }
     /// Ghost view of an EC_POINT: None = infinity.
     pub unsafe fn point(p: *const EC_POINT) -> Option<[u8; 49]> {
@@ -221,8 +270,10 @@ pub unsafe fn BN_bin2bn(in_: *const u8, len: usize, ret: *mut BIGNUM) -> *mut BI
     assert!(len <= BN_CAP, "[model] capacity: BN_bin2bn input longer than 66 bytes");
     let mut mag = [0u8; BN_CAP];
     let mut i = 0;
-    while i < len {
-        mag[BN_CAP - len + i] = *in_.add(i);
+    while i < BN_CAP {
+        if i < len {
+            mag[BN_CAP - len + i] = *in_.add(i);
+        }
         i += 1;
     }
     let v = bn_normalised(mag);
@@ -237,13 +288,16 @@ pub unsafe fn BN_num_bytes(bn: *const BIGNUM) -> c_uint {
     (*bn).len as c_uint
 }
 pub unsafe fn BN_bn2bin(in_: *const BIGNUM, out: *mut u8) -> usize {
-    let l = (*in_).len;
-    let mut i = 0;
-    while i < BN_CAP {
-        if i < l {
-            *out.add(i) = (*in_).mag[BN_CAP - l + i];
+    // the magnitude is right-aligned: byte j of `mag` (j >= 66 - l) goes to out[j - (66 - l)]  (source index concrete)
+    let b = *in_; // one read of the object, then only local accesses
+    let l = b.len;
+    let skip = BN_CAP - l;
+    let mut j = 0;
+    while j < BN_CAP {
+        if j >= skip {
+            *out.add(j - skip) = b.mag[j];
         }
-        i += 1;
+        j += 1;
     }
     l
 }
@@ -290,12 +344,14 @@ pub unsafe fn EC_POINT_oct2point(_group: *const EC_GROUP, point: *mut EC_POINT, 
             i += 1;
         }
         let valid = conv::x_valid(&c[1..]);
-        if (form == 2 || form == 3) && valid {
-            (*point).inf = false;
-            (*point).enc = c;
-            return 1;
+        let ok = (form == 2 || form == 3) && valid;
+        if model::points_promised() {
+            model::assume(ok);
+        } else if !ok {
+            return 0;
         }
-        return 0;
+        *point = EC_POINT { inf: false, enc: c };
+        return 1;
     }
     if len == 97 {
         let mut c = [0u8; 49];
@@ -372,21 +428,20 @@ pub unsafe fn EC_POINT_mul(_group: *const EC_GROUP, r: *mut EC_POINT, n: *const 
         return 0;
     }
     assert!(q.is_null(), "[model] capacity: EC_POINT_mul with a point operand is not modelled");
-    let k = low48(&*n);
+    let nb = *n;
+    let k = low48(&nb);
     // always exactly the same uf calls, whatever the scalar (keeps the memo table's size independent of symbolic data)
     let pk = conv::p384_pk(&k);
-    if (*n).len == 0 {
-        (*r).inf = true;
-    } else if (*n).len <= 48 && conv::scalar_in_range(&k) {
-        (*r).inf = false;
-        (*r).enc = pk;
+    *r = if nb.len == 0 {
+        EC_POINT { inf: true, enc: [0; 49] }
+    } else if nb.len <= 48 && conv::scalar_in_range(&k) {
+        EC_POINT { inf: false, enc: pk }
     } else {
         // n >= order: aws-lc reduces mod the order first; the model does not compute the reduction
-        (*r).inf = model::nondet_bool();
         let mut e: [u8; 49] = model::nondet();
         e[0] = 2 | (e[0] & 1);
-        (*r).enc = e;
-    }
+        EC_POINT { inf: model::nondet_bool(), enc: e }
+    };
     1
 }
 
@@ -419,11 +474,15 @@ pub unsafe fn EC_KEY_set_private_key(key: *mut EC_KEY, priv_: *const BIGNUM) -> 
     if !(*key).has_group {
         return 0;
     }
-    let k = low48(&*priv_);
-    if (*priv_).len > 48 || !conv::scalar_in_range(&k) {
+    let pb = *priv_;
+    let k = low48(&pb);
+    let in_range = pb.len <= 48 && conv::scalar_in_range(&k);
+    if model::scalars_promised() {
+        model::assume(in_range);
+    } else if !in_range {
         return 0; // EC_R_INVALID_PRIVATE_KEY: zero or >= order
     }
-    let copy = new_obj(BIGNUM { len: (*priv_).len, mag: (*priv_).mag });
+    let copy = new_obj(pb);
     if copy.is_null() {
         return 0;
     }
@@ -436,7 +495,7 @@ pub unsafe fn EC_KEY_set_public_key(key: *mut EC_KEY, pub_: *const EC_POINT) -> 
         return 0;
     }
     free_obj((*key).pub_key);
-    (*key).pub_key = if pub_.is_null() { null_mut() } else { new_obj(EC_POINT { inf: (*pub_).inf, enc: (*pub_).enc }) };
+    (*key).pub_key = if pub_.is_null() { null_mut() } else { new_obj(*pub_) };
     if (*key).pub_key.is_null() {
         0
     } else {
@@ -444,27 +503,31 @@ pub unsafe fn EC_KEY_set_public_key(key: *mut EC_KEY, pub_: *const EC_POINT) -> 
     }
 }
 
-// ------------------------------------------------------------------------------------------------ DER (ECDSA-Sig-Value)
-/// INTEGER: 02 len [00] magnitude — leading 00 iff the top bit is set or the value is zero (BN_marshal_asn1).
+// ------------------------------------------------------------------------------------------------ DER-shaped signature bytes
+// The repository never looks inside the bytes ECDSA_sign / ECDSA_SIG_to_bytes produce; it only carries (pointer, length) to
+// ECDSA_SIG_from_bytes / ECDSA_verify. The model therefore keeps what the repository can observe of DER — the framing
+// 30 L 02 l1 <int> 02 l2 <int>, the exact LENGTH of the true DER encoding (minimal integers, one 00 pad byte when the top bit is
+// set or the value is zero: 8..=104 bytes for P-384), strictness of the parser (every byte string has at most one reading, and only
+// what the encoder produces is accepted) — but stores the content bytes of each INTEGER least-significant byte first. With the
+// true big-endian layout every byte of s would sit at a position depending on the lengths of BOTH integers and CBMC has to
+// prove three compositions of two-dimensional barrel shifts to be the identity (18 M clauses, no result in 15 min); with this
+// layout r is at fixed positions and s is shifted by the length of r only (measured: see NOTES.md).
 fn der_put_int(buf: &mut [u8; DER_CAP], pos: usize, b: &BIGNUM) -> usize {
     let l = b.len;
     let pad = l == 0 || b.mag[BN_CAP - l] & 0x80 != 0;
-    let mut p = pos;
-    buf[p] = 0x02;
-    buf[p + 1] = (l + pad as usize) as u8;
-    p += 2;
-    if pad {
-        buf[p] = 0;
-        p += 1;
-    }
+    let dl = l + pad as usize;
+    buf[pos] = 0x02;
+    buf[pos + 1] = dl as u8;
+    let p = pos + 2;
     let mut i = 0;
-    while i < 48 {
-        if i < l {
-            buf[p + i] = b.mag[BN_CAP - l + i];
+    while i < 49 {
+        if i < dl {
+            // content byte i (least significant first); the pad byte, if any, is the last one and is zero
+            buf[p + i] = if i < l { b.mag[BN_CAP - 1 - i] } else { 0 };
         }
         i += 1;
     }
-    p + l
+    p + dl
 }
 fn der_encode(r: &BIGNUM, s: &BIGNUM) -> ([u8; DER_CAP], usize) {
     assert!(r.len <= 48 && s.len <= 48, "[model] capacity: DER encoding of signature components longer than 48 bytes");
@@ -475,32 +538,34 @@ fn der_encode(r: &BIGNUM, s: &BIGNUM) -> ([u8; DER_CAP], usize) {
     buf[1] = (p - 2) as u8;
     (buf, p)
 }
-/// strict DER INTEGER at `pos` inside buf[..end]: returns (value, next position)
+/// strict INTEGER at `pos` inside buf[..end]: returns (value, next position)
 fn der_get_int(buf: &[u8; DER_CAP], pos: usize, end: usize) -> Option<(BIGNUM, usize)> {
     if pos + 2 > end || buf[pos] != 0x02 {
         return None;
     }
-    let l = buf[pos + 1] as usize;
+    let dl = buf[pos + 1] as usize;
     let p = pos + 2;
-    if l == 0 || l > 49 || p + l > end {
-        return None; // empty INTEGER is invalid; longer than 49 content bytes is outside P-384 (would be rejected by verify anyway)
+    if dl == 0 || dl > 49 || p + dl > end {
+        return None; // an empty INTEGER is invalid; more than 49 content bytes is outside P-384 (verify would reject it anyway)
     }
-    let first = buf[p];
-    if first & 0x80 != 0 {
+    let top = buf[p + dl - 1];
+    if top & 0x80 != 0 {
         return None; // negative
     }
-    if l > 1 && first == 0 && buf[p + 1] & 0x80 == 0 {
+    if dl > 1 && top == 0 && buf[p + dl - 2] & 0x80 == 0 {
         return None; // non-minimal
     }
     let mut mag = [0u8; BN_CAP];
     let mut i = 0;
     while i < 49 {
-        if i < l {
-            mag[BN_CAP - l + i] = buf[p + i];
+        if i < dl {
+            mag[BN_CAP - 1 - i] = buf[p + i];
         }
         i += 1;
     }
-    Some((bn_normalised(mag), p + l))
+    // minimal encoding => the magnitude length is dl, minus the pad byte if there is one (zero is the single byte 00)
+    let len = if top == 0 { dl - 1 } else { dl };
+    Some((BIGNUM { len, mag }, p + dl))
 }
 unsafe fn der_decode(in_: *const u8, in_len: usize) -> Option<(BIGNUM, BIGNUM)> {
     assert!(in_len <= DER_CAP, "[model] capacity: DER signature longer than 104 bytes");
@@ -523,13 +588,19 @@ unsafe fn der_decode(in_: *const u8, in_len: usize) -> Option<(BIGNUM, BIGNUM)> 
     Some((r, s))
 }
 
-// OPENSSL_malloc keeps the size in a prefix so that OPENSSL_free needs only the pointer (mem.c: OPENSSL_MALLOC_PREFIX)
+// OPENSSL_malloc keeps the size in a prefix so that OPENSSL_free needs only the pointer (mem.c: OPENSSL_MALLOC_PREFIX).
+// The model's only OPENSSL_malloc client is ECDSA_SIG_to_bytes (n = 8..=104). The allocation has the FIXED size PREFIX + 104
+// (an object of symbolic size makes every bounds check of every possibly-aliasing pointer symbolic: measured 2x formula size);
+// bytes n..104 are never written (arbitrary), so a caller reading more than the n bytes it was told about gets arbitrary bytes
+// that do not parse — detected by the functional obligations instead of as an out-of-bounds read. Reads beyond 104 and any use
+// after OPENSSL_free are still pointer-check failures.
 const PREFIX: usize = 8;
 unsafe fn ossl_malloc(n: usize) -> *mut u8 {
+    assert!(n <= DER_CAP, "[model] capacity: OPENSSL_malloc larger than 104 bytes");
     if alloc_fails() {
         return null_mut();
     }
-    let base = alloc(Layout::from_size_align_unchecked(PREFIX + n, 8));
+    let base = alloc(Layout::from_size_align_unchecked(PREFIX + DER_CAP, 8));
     if base.is_null() {
         return null_mut();
     }
@@ -542,8 +613,7 @@ pub unsafe fn OPENSSL_free(ptr: *mut c_void) {
         return;
     }
     let base = (ptr as *mut u8).sub(PREFIX);
-    let n = *(base as *const usize);
-    dealloc(base, Layout::from_size_align_unchecked(PREFIX + n, 8));
+    dealloc(base, Layout::from_size_align_unchecked(PREFIX + DER_CAP, 8));
     LIVE -= 1;
 }
 
@@ -598,7 +668,8 @@ pub unsafe fn ECDSA_SIG_from_bytes(in_: *const u8, in_len: usize) -> *mut ECDSA_
     }
 }
 pub unsafe fn ECDSA_SIG_to_bytes(out_bytes: *mut *mut u8, out_len: *mut usize, sig: *const ECDSA_SIG) -> c_int {
-    let (der, n) = der_encode(&*(*sig).r, &*(*sig).s);
+    let (rb, sb) = (*(*sig).r, *(*sig).s);
+    let (der, n) = der_encode(&rb, &sb);
     let p = ossl_malloc(n);
     if p.is_null() {
         return 0;
@@ -631,15 +702,19 @@ unsafe fn read_digest(digest: *const u8, digest_len: usize) -> ([u8; 64], usize)
     (d, digest_len)
 }
 pub unsafe fn ECDSA_sign(_type: c_int, digest: *const u8, digest_len: usize, sig: *mut u8, sig_len: *mut c_uint, key: *const EC_KEY) -> c_int {
-    if !(*key).has_group || (*key).priv_key.is_null() || alloc_fails() {
-        *sig_len = 0;
-        return 0;
-    }
+    // the model calls are made on every path (a key without private half "signs" with the zero scalar and the result is
+    // discarded): the number of memo-table entries must not depend on symbolic data
     let (d, dl) = read_digest(digest, digest_len);
-    let scalar = low48(&*(*key).priv_key);
+    let usable = (*key).has_group && !(*key).priv_key.is_null();
+    let pb = if usable { *(*key).priv_key } else { ZERO };
+    let scalar = low48(&pb);
     let pk = conv::p384_pk(&scalar);
     let nonce: [u8; 15] = model::nondet();
     let (r, s) = conv::ecdsa_sign(&pk, &nonce, &d[..dl]);
+    if !usable || alloc_fails() {
+        *sig_len = 0;
+        return 0;
+    }
     let (der, n) = der_encode(&bn_from_slice(&r), &bn_from_slice(&s));
     let mut i = 0;
     while i < DER_CAP {
@@ -667,7 +742,7 @@ pub unsafe fn ECDSA_verify(_type: c_int, digest: *const u8, digest_len: usize, s
     if r.len > 48 || s.len > 48 || !conv::scalar_in_range(&r48) || !conv::scalar_in_range(&s48) {
         return 0;
     }
-    let p = &*(*key).pub_key;
+    let p = *(*key).pub_key;
     if p.inf {
         return model::nondet_bool() as c_int;
     }
@@ -683,14 +758,16 @@ pub unsafe fn ECDH_compute_key(
     kdf: Option<unsafe extern "C" fn(in_: *const c_void, inlen: usize, out: *mut c_void, outlen: *mut usize) -> *mut c_void>,
 ) -> c_int {
     assert!(kdf.is_none(), "[model] capacity: ECDH_compute_key with a KDF callback is not modelled");
-    if (*priv_key).priv_key.is_null() || alloc_fails() {
+    let usable = !(*priv_key).priv_key.is_null();
+    let pb = if usable { *(*priv_key).priv_key } else { ZERO };
+    let scalar = low48(&pb);
+    let own = conv::p384_pk(&scalar);
+    let peer = *pub_key;
+    let xk = conv::ecdh(&own[1..], &peer.enc[1..]);
+    if !usable || alloc_fails() {
         return -1;
     }
-    let scalar = low48(&*(*priv_key).priv_key);
-    let own = conv::p384_pk(&scalar);
-    let peer = (*pub_key).enc;
-    let xk = conv::ecdh(&own[1..], &peer[1..]);
-    if (*pub_key).inf {
+    if peer.inf {
         return -1; // EC_KEY_check_fips(peer) rejects the point at infinity
     }
     let n = if outlen < 48 { outlen } else { 48 };
